@@ -30,8 +30,8 @@ META = {
     "level_note": "A 'held' packet uses the gate point enc.frame (encoder.go) so that the interleaving 'other connections encode while "
                   "this frame is compressed but not yet written' is forced rather than hoped for; the peers' streams are "
                   "validated as runs of their own. Unknown ids are looked up through gate's exported state registry (a table lookup that steers the "
-                  "driver). Known pass-through types are limited to the two whose handlers provably forward the received "
-                  "payload (serverbound ClientSettings, clientbound KeepAlive); known intercepted ones (serverbound "
+                  "driver). Known pass-through types are limited to the three whose handlers provably forward the received "
+                  "payload (serverbound ClientSettings, clientbound KeepAlive, clientbound legacy PlayerListItem 1.8-1.19.1); known intercepted ones (serverbound "
                   "KeepAlive with an id nobody asked for, clientbound BungeeCord plugin message) carry no obligation. "
                   "Besides identity and order the trace spec requires that a frame reaches the receiver in a form a vanilla "
                   "peer accepts (length prefix <= 2^21-1, compressed only at/above the hop's threshold). Sizes stay within "
